@@ -57,7 +57,7 @@ def shaped(val, shape, partial=True):
         for k, sv in shape[1]:
             if k not in vd:
                 return False
-            r = shaped(vd[k], sv, False)
+            r = shaped(vd[k], sv, partial)
             if r is None:
                 return None
             if not r:
@@ -239,7 +239,22 @@ def rand_shape_pair(r):
         names = r.sample(["a", "b", "c", "name", "port"], r.randint(1, 3))
         shape = ("t", [(n, rand_scalar(r)) for n in names])
         val_fields = []
-        for n, sv in shape[1]:
+        for i, (n, sv) in enumerate(list(shape[1])):
+            if r.random() < 0.3:
+                # a nested tuple: the value's may have an extra field, lack one, or have one of another type
+                inner = r.sample(["x", "y", "z"], r.randint(1, 2))
+                nshape = ("t", [(m, rand_scalar(r)) for m in inner])
+                shape[1][i] = (n, nshape)
+                nval = [(m, same_type(r, t)) for m, t in nshape[1]]
+                z = r.random()
+                if z < 0.35:
+                    nval.append(("more", rand_scalar(r)))
+                elif z < 0.5:
+                    nval = nval[1:]
+                elif z < 0.6:
+                    nval[0] = (nval[0][0], L([I(1)]))
+                val_fields.append((n, ("t", nval)))
+                continue
             y = r.random()
             if y < 0.7:
                 val_fields.append((n, same_type(r, sv)))
@@ -324,7 +339,7 @@ def run(tier, seed, t0):
     res = core.run_parallel(task, tasks)
     return core.finish("C19", tier, seed, res, RULE, t0, replay_known=replay_known,
                        assumptions=["the reference definitions in vf/props/c19.py are my reading of docsite/.../stdlib/*.md and the doc comments in std/*.ucg",
-                                    "schema.shaped: nested tuples are compared without partial matching only where value and shape have the same field set (the docs leave nested partial matching open)"])
+                                    "schema.shaped: `partial` applies to nested tuples as well (the doc comment speaks of fields in tuples)"])
 
 
 def check_text(text, expected):
